@@ -5,23 +5,71 @@ import (
 	"os"
 	"strings"
 
-	"golang.org/x/tools/go/packages"
-	"golang.org/x/tools/go/ssa"
-	"golang.org/x/tools/go/ssa/ssautil"
+	"govc"
 )
 
 func main() {
-	cfg := &packages.Config{Mode: packages.LoadAllSyntax, Dir: "/repo", BuildFlags: []string{"-tags=verif"}}
-	pkgs, err := packages.Load(cfg, os.Args[2:]...)
-	if err != nil {
-		panic(err)
+	if len(os.Args) < 2 {
+		fmt.Fprintln(os.Stderr, "usage: govc <command> ...")
+		os.Exit(2)
 	}
-	prog, _ := ssautil.AllPackages(pkgs, ssa.GlobalDebug)
-	prog.Build()
-	for f := range ssautil.AllFunctions(prog) {
-		if strings.Contains(f.String(), os.Args[1]) {
-			f.WriteTo(os.Stdout)
+	switch os.Args[1] {
+	case "unit":
+		devUnit(os.Args[2:])
+	case "check":
+		os.Exit(govc.CheckMain(os.Args[2:]))
+	default:
+		fmt.Fprintln(os.Stderr, "unknown command")
+		os.Exit(2)
+	}
+}
+
+// devUnit: govc unit [-dump] <substring of function name> ...   (development aid)
+func devUnit(args []string) {
+	dump := false
+	if len(args) > 0 && args[0] == "-dump" {
+		dump = true
+		args = args[1:]
+	}
+	eng, err := govc.LoadRepo("/repo")
+	if err != nil {
+		fmt.Fprintln(os.Stderr, err)
+		os.Exit(2)
+	}
+	dir, _ := os.MkdirTemp("", "govc")
+	defer os.RemoveAll(dir)
+	for name, fn := range eng.Funcs {
+		match := false
+		for _, a := range args {
+			if strings.Contains(name, a) {
+				match = true
+			}
+		}
+		if !match {
+			continue
+		}
+		u := eng.GenUnit(fn)
+		fmt.Printf("== %s: %d items, %d obligations, unsupported=%v\n", name, len(u.Items), len(u.Obls), u.Unsupported)
+		for _, w := range u.Warnings {
+			fmt.Println("   warn:", w)
+		}
+		for _, w := range u.Assumptions {
+			fmt.Println("   assume:", w)
+		}
+		res := govc.SolveAll([]*govc.Unit{u}, dir, govc.DefaultSolvers(10), 8, false)
+		for _, r := range res {
+			mark := "ok  "
+			if !r.OK {
+				mark = "FAIL"
+			}
+			fmt.Printf("   %s %-8s %-10s %.2fs %s\n", mark, r.Res.Status, r.Res.Solver, r.Res.Seconds, r.Ob.Name)
+			if !r.OK {
+				fmt.Println("        src:", r.Ob.Src)
+				if dump {
+					fmt.Println(r.Res.Output)
+					os.WriteFile("/tmp/fail.smt2", []byte(u.Script(r.Ob)), 0o644)
+				}
+			}
 		}
 	}
-	fmt.Println("ok")
 }
